@@ -23,7 +23,7 @@ func moreProps(m map[string]*propCfg) {
 		}
 		m[p.ID] = p
 	}
-	add(&propCfg{ID: "C03", Engine: "startsim", Level: "exploration", Families: []famShare{{gen.FamSubst, 1}}, QProgs: 400, QK: 10, TProgs: 480, TK: 48,
+	add(&propCfg{ID: "C03", Engine: "startsim", Level: "exploration", Families: []famShare{{gen.FamSubst, 0.9}, {gen.FamWrapName, 0.1}}, QProgs: 400, QK: 10, TProgs: 480, TK: 48,
 		Rule: "generated cyclic and acyclic programs with a wrap plan (per substituted component: early only, before-init only, after-init only, before-instantiation, early+after with the same or with different substitutes; 1-2 substituting processors of all order classes); K schedules each. Non-trivial = a substitute was actually returned by a callback in that run; distinct = distinct (program shape, registry path signature)."})
 	add(&propCfg{ID: "C05", Engine: "startsim", Level: "exploration", Families: []famShare{{gen.FamLife, 0.65}, {gen.FamWire, 0.2}, {gen.FamSubst, 0.15}}, QProgs: 400, QK: 8, TProgs: 480, TK: 48,
 		Rule: "generated DAGs / diamonds / cycles with tails, lazy-eager mixes, 1-4 observing post-processors of all classes and order classes, runners; K schedules each. Non-trivial = at least two Init events in the run; distinct = distinct (program shape, registry path signature)."})
